@@ -120,8 +120,10 @@ def _chunk(jobs):
             toks, _t = gen_doc.document(rnd, flavor="executable")
             text = gen_doc.join_tokens(toks, rnd)
         else:
-            case = gqlmini.gen_case(sd)
-            text = gqlmini.render_doc(case)
+            # a quarter of the documents are mutations (some rules only look at mutation / subscription roots)
+            op12 = "mutation" if sd % 4 == 1 else "query"
+            case = gqlmini.gen_case(sd, op=op12)
+            text = gqlmini.render_doc(case, op12)
             if kind == "mutant":
                 text = mutate_doc(text, rnd)
             elif rnd.random() < 0.5:
